@@ -263,13 +263,16 @@ class Cluster:
 
         while True:
             if task not in self._clusters[c]['tasks']['running']:
-                # THIS CHECK DOESN"T WORK FIX IT SOMEHOW
+                # A machine can take the task if it is free, if it is part
+                # of this observation's batch reservation, or - for ingest
+                # tasks only - if it has been moved to the ingest pool by
+                # provision_ingest_resources()
                 if (machine not in self._clusters[c]['resources'][
-                    'available'] and (machine not in
+                    'available'] and not (ingest and machine in
                         self._clusters[c]['resources'][
-                            'ingest'] and machine not in
+                            'ingest']) and machine not in
                         self.get_idle_resources(
-                            observation))):
+                            observation)):
                     raise RuntimeError
                 if ingest:
                     # Ingest resources allocated separately from scheduler
